@@ -30,7 +30,14 @@ def loop_id(node) -> Optional[str]:
         return "while"
     it = norm(node.iter)
     if it.startswith("range("):
-        return "time"
+        # the simulators' time loop: the range loop that feeds candles to the matcher (other range loops - e.g. over the candles
+        # of a chunk - are ordinary inner loops)
+        for n in ast.walk(node):
+            if n is not node and isinstance(n, ast.For) and norm(n.iter) == "candles":
+                return "time"
+            if isinstance(n, ast.Call) and last(dotted(n.func) or "") in ("_simulate_new_candles", "_simulate_price_change_effect"):
+                return "time"
+        return "loop:" + it[:30]
     if it == "candles":
         return "sym"
     if "router.routes" in it:
